@@ -80,13 +80,25 @@ def _printed_values(out: str, tag: str):
         i += 1
 
 
+def _no_nulls(x):
+    """TLC's Json module cannot read null: a None that the implementation produced where a value was expected must reach the
+    trace spec as a (wrong) value, not stop the validator"""
+    if x is None:
+        return "<null>"
+    if isinstance(x, dict):
+        return {k: _no_nulls(v) for k, v in x.items()}
+    if isinstance(x, (list, tuple)):
+        return [_no_nulls(v) for v in x]
+    return x
+
+
 def _validate_one(args):
     module, cfg, traces, timeout, idx = args
     scratch = tlc.new_scratch("tr")
     try:
         f = scratch / f"traces{idx}.json"
         with open(f, "w") as fh:
-            json.dump(traces, fh)
+            json.dump(_no_nulls(traces), fh)
         res = tlc.run_tlc(module, cfg, workers=1, timeout=timeout, env={"TRACE_FILE": str(f)}, deadlock=False)
         verdicts = {}
         for v in _printed_values(res.output, "@R"):
